@@ -48,6 +48,11 @@ class VProcess:
         p = V.W.procs.get(spec["pid"])
         if p is None or p.exited:
             return None
+        cur = V.current_proc()
+        if cur is not None and cur.pid != p.owner_pid:
+            # re-attached from a pid file by another process: like psutil for a process that is not a child,
+            # waiting tells when it ended but not with which status
+            return AdoptedVProcess(p)
         return p
 
     def wait(self):
@@ -106,6 +111,8 @@ class VProcess:
                 if pid.is_file():
                     pid.unlink()
             elif op == "unlock":
+                # the job has given up its run lock: from here on it only exits
+                V.W.events.append(("released", name, jobid, self.vpid))
                 V.ip_release(str(lockp))
             elif op.startswith("exit:"):
                 code = int(op[5:])
@@ -116,6 +123,33 @@ class VProcess:
             if owner == self.vpid:
                 del V.W.iplocks[path]
         V.W.events.append(("exit", name, jobid, self.vpid, code))
+
+
+class AdoptedVProcess:
+    """What LocalProcess.fromspec gives for somebody else's process (PsutilProcess): no exit code."""
+
+    def __init__(self, p):
+        self.p = p
+
+    def tospec(self):
+        return self.p.tospec()
+
+    def wait(self):
+        V.HUB.block_on(lambda: self.p.exited)
+        return None
+
+    async def aio_state(self):
+        return await self.p.aio_state()
+
+    async def aio_isrunning(self):
+        return not self.p.exited
+
+    async def aio_code(self):
+        from experimaestro.utils.asyncio import asyncThreadcheck
+        return await asyncThreadcheck("aio_code", self.wait)
+
+    def kill(self):
+        self.p.kill()
 
 
 class VProcessBuilder:
